@@ -777,16 +777,39 @@ def adversarial_variants(src, text_by_backend):
         elif n.endswith("_") and n[0].islower():
             base = n[:-1]
             defs.append(base + "_")              # user definition whose label collides with a generated '<def>_'
+            defs.append(base)                    # user definition called exactly like a generated (shared / lifted) definition
         elif n[0].isupper() and re.search(r"_\d+$", n):
             types.append(n)                      # user type called like a table label
     extra = ""
-    for d in sorted(set(defs))[:12]:
+    for d in sorted(set(defs))[:24]:
         if re.match(r"^[a-z][a-zA-Z0-9_]*$", d) and ("def %s(" % d) not in src:
             extra += "def %s(): i64 { 7 }\n" % d
     for t in sorted(set(types))[:6]:
         if re.match(r"^[A-Z][a-zA-Z0-9_]*$", t) and ("data %s " % t) not in src:
             extra += "data %s { Mk%s }\ndef use_%s(x: %s): i64 { x.case { Mk%s => 1 } }\n" % (t, t, t.lower(), t, t)
     return src + extra if extra else None
+
+
+def adversarial_renames(src, text_by_backend, limit=3):
+    """variants in which one helper definition of the user is *renamed* to exactly the name of a definition the compiler
+    generated (shared continuation, lifted statement): renaming changes no identifier numbering, so the compiler generates the
+    same name again and must keep the two apart"""
+    import re
+    user = [u for u in re.findall(r"^def ([a-z]\w*)\(", src, re.M) if u != "main"]
+    gen = set()
+    for t in text_by_backend.values():
+        for m in re.finditer(r"^([a-z][\w]*)_:", t, re.M):
+            if m.group(1) not in user and m.group(1) not in ("main", "asm_main", "cleanup") and not re.match(r"^lab\d+$", m.group(1)):
+                gen.add(m.group(1))
+    fams = {}
+    for g in sorted(gen):
+        fams.setdefault(g.split("_")[0], []).append(g)      # one name of every family of generated names (share_.., lift_.., ..)
+    picks = [v[0] for v in fams.values()] + [v[-1] for v in fams.values() if len(v) > 1]
+    out = []
+    for g, u in zip(picks[:limit], user):
+        if re.match(r"^[a-z][a-zA-Z0-9_]*$", g):
+            out.append(re.sub(r"\b%s\b" % re.escape(u), g, src))
+    return out
 
 
 def check_C14(tier):
@@ -802,13 +825,16 @@ def check_C14(tier):
     adv = []
     for n, e in list(index.items()):
         src = meta.get(n, {}).get("src")
-        if not src or len(adv) >= T(tier, 40, 400):
+        if not src or len(adv) >= T(tier, 80, 800):
             continue
         texts = {be: open(os.path.join(art, "%s.%s.asm" % (n, be))).read() for be in ("x86", "a64") if os.path.exists(os.path.join(art, "%s.%s.asm" % (n, be)))}
         v = adversarial_variants(src, texts)
         if v:
             adv.append({"name": n + "_adv", "kind": "fun", "src": v})
             meta[n + "_adv"] = {"src": v, "origin": "adversarial"}
+        for j, v2 in enumerate(adversarial_renames(src, texts)):
+            adv.append({"name": "%s_ren%d" % (n, j), "kind": "fun", "src": v2})
+            meta["%s_ren%d" % (n, j)] = {"src": v2, "origin": "adversarial-rename"}
     r = rng_for("C14")
     directed = GL.fam_literals(r, 12 * k) + GL.fam_ops(r, 40 * k) + GL.fam_ifc(r, 40 * k)
     lst = adv + [{"name": nm, "kind": "axcut", "prog": p, "linear": True} for nm, p, a in directed]
